@@ -100,9 +100,21 @@ fn run_one(f: &mut Vec<u8>, ci: usize, c: &Value, shift: u64, progress: bool) {
         // population scale: every member's agent count is multiplied by it (large populations: thousands of instructions per step)
         let z = c.get("scale").and_then(|x| x.as_u64()).unwrap_or(1) as u32;
         SIGMA.store((c.get("sigma").and_then(|x| x.as_f64()).unwrap_or(0.0) * 10.0) as u32, std::sync::atomic::Ordering::Relaxed);
-        writeln!(f, "{}", json!({"op": "config", "cfg": tag, "comp": comp, "steps": steps, "step_size": step_size, "tick": tick})).unwrap();
+        // "pre": the environment has a history before the runner is called - far-away quotes are placed and `pre` steps taken by hand
+        // (as the crate's own agent tests open a book), then the simulation runs on it; every process does the same
+        let pre = c.get("pre").and_then(|x| x.as_u64()).unwrap_or(0);
+        writeln!(f, "{}", json!({"op": "config", "cfg": tag, "comp": comp, "steps": steps, "step_size": step_size, "tick": tick, "pre": pre})).unwrap();
         if comp.starts_with('M') {
             let mut env: MarketEnv<2, 10> = MarketEnv::new(0, [tick, tick], step_size, true);
+            if pre > 0 {
+                use rand::SeedableRng;
+                let mut r0 = rand_xoshiro::Xoroshiro128StarStar::seed_from_u64(seed ^ 0x5EED);
+                for a in 0..2 {
+                    env.place_order(a, bourse_book::types::Side::Bid, 50, 999_999, Some(10 * tick)).unwrap();
+                    env.place_order(a, bourse_book::types::Side::Ask, 50, 999_999, Some(60 * tick)).unwrap();
+                }
+                for _ in 0..pre { env.step(&mut r0); }
+            }
             match comp {
                 "MMixed" => {
                     let mut a = MMixed { r0: RandomMarketAgents::new(0, 6 * z as usize, (20, 40), (1, 20), tick, 0.5), n1: NoiseMarketAgent::new(1, 100000, (5 * z) as u16, noise(tick, 1)),
@@ -128,6 +140,13 @@ fn run_one(f: &mut Vec<u8>, ci: usize, c: &Value, shift: u64, progress: bool) {
             }
         } else {
             let mut env = Env::new(0, tick, step_size, true);
+            if pre > 0 {
+                use rand::SeedableRng;
+                let mut r0 = rand_xoshiro::Xoroshiro128StarStar::seed_from_u64(seed ^ 0x5EED);
+                env.place_order(bourse_book::types::Side::Bid, 50, 999_999, Some(10 * tick)).unwrap();
+                env.place_order(bourse_book::types::Side::Ask, 50, 999_999, Some(60 * tick)).unwrap();
+                for _ in 0..pre { env.step(&mut r0); }
+            }
             match comp {
                 "Mixed" => {
                     let mut a = Mixed { r: RandomAgents::new(8 * z as usize, (20, 40), (1, 20), tick, 0.6), n: NoiseAgent::new(100000, (6 * z) as u16, noise(tick, 0)), m: MomentumAgent::new(200000, (5 * z) as u16, mom(tick, 0)) };
